@@ -313,6 +313,9 @@ class CustomVJPOuter(nn.Module):
   spec: Any = None
   dim: int = 2
   use_custom: bool = True
+  # the primal output of forward_fn is distinguishable from fn's: it is only
+  # to be used when a vjp is computed
+  fwd_shift: float = 0.0
 
   @nn.compact
   def __call__(self, x):
@@ -322,7 +325,8 @@ class CustomVJPOuter(nn.Module):
       return mdl(xx)
 
     def fwd(mdl, xx):
-      return nn.vjp(f, mdl, xx)
+      y, vjp_fn = nn.vjp(f, mdl, xx)
+      return y + self.fwd_shift, vjp_fn
 
     def bwd(vjp_fn, y_t):
       params_t, *inputs_t = vjp_fn(y_t)
@@ -345,8 +349,10 @@ class CustomVJPOuter(nn.Module):
             st.integers(1, 3), st.integers(0, 2**16)),
         quick=100, thorough=3000, quick_shards=10, shrink=False,
         rule='generated smooth child programs under nn.custom_vjp with a '
-        'backward rule that takes the sign of the parameter cotangent: the '
-        'forward value equals the plain function, jax.grad of the outer apply '
+        'backward rule that takes the sign of the parameter cotangent and a '
+        'forward_fn whose primal output is shifted by 100 in half of the '
+        'cases: the forward value (eager and jitted) equals the plain '
+        'function, jax.grad of the outer apply '
         'w.r.t. params equals sign(plain gradient) and the input gradient is '
         '-0.5 x the plain one (also for parameter-free modules); counters / running statistics updated by the forward '
         'pass are published exactly once while differentiating; non-trivial = child has >=2 parameters')
@@ -360,7 +366,8 @@ def custom_vjp(case, ctx):
   spec = L.freeze_json(prog)
   rng = np.random.default_rng(seed)
   x = jnp.asarray(rng.normal(size=(2, D)), jnp.float32)
-  m_c = CustomVJPOuter(spec=spec, dim=D, use_custom=True)
+  shift = 100.0 if seed % 2 else 0.0
+  m_c = CustomVJPOuter(spec=spec, dim=D, use_custom=True, fwd_shift=shift)
   m_p = CustomVJPOuter(spec=spec, dim=D, use_custom=False)
   key = jax.random.key(seed)
   with sut('init'):
@@ -368,8 +375,14 @@ def custom_vjp(case, ctx):
   with sut('forward'):
     y_c = m_c.apply(V, x)
     y_p = m_p.apply(V, x)
-  require(close(y_c, y_p), 'forward value under custom_vjp differs from the '
-          'original function')
+  require(close(y_c, y_p), lambda: 'forward value under custom_vjp '
+          f'({np.asarray(y_c)}) differs from the original function '
+          f'({np.asarray(y_p)}); forward_fn shifts its primal output by '
+          f'{shift}')
+  with sut('forward under jit'):
+    y_j = jax.jit(lambda v, xx: m_c.apply(v, xx))(V, x)
+  require(close(y_j, y_p), 'jitted forward value under custom_vjp differs '
+          'from the original function')
   V = unfreeze(V)
   state_cols = sorted(c for c in V if c != 'params')
   P, S = {'params': V.get('params', {})}, {c: V[c] for c in state_cols}
@@ -398,7 +411,8 @@ def custom_vjp(case, ctx):
             f'forward pass: {jax.tree_util.tree_map(np.asarray, unfreeze(uc))}'
             f' vs {jax.tree_util.tree_map(np.asarray, unfreeze(u_fwd))}')
   nparams = len(jax.tree_util.tree_leaves(V))
-  ctx.note(labels=['stateful' if state_cols else 'stateless'],
+  ctx.note(labels=['stateful' if state_cols else 'stateless',
+                   'fwd-shifted' if shift else 'fwd-same'],
            nontrivial=nparams >= 2)
 
 
